@@ -16,6 +16,9 @@ elif p.startswith('w'):
 elif p.startswith('q'):
     p = 'c' + p[1:]
     k_out = str(int(k) + 6)
+elif p.startswith('p'):
+    p = 'c' + p[1:]
+    k_out = str(int(k) + 8)
 dst = '/verif/seeded/%s-%s' % (p.upper(), k_out)
 os.makedirs(dst, exist_ok=True)
 shutil.copy(os.path.join(src, 'change%s.diff' % k), os.path.join(dst, 'patch.diff'))
